@@ -27,7 +27,7 @@ pub enum Version {
 
 pub type Id = String;
 
-#[derive(Debug, Clone, PartialEq, Eq, Serialize, Deserialize)]
+#[derive(Debug, Clone, PartialEq, Eq, Serialize)]
 #[serde(rename_all = "PascalCase")]
 pub struct Statement {
     pub sid: Option<Sid>,
@@ -145,6 +145,94 @@ impl<'de> Deserialize<'de> for Principal {
         }
 
         deserializer.deserialize_any(Visitor)
+    }
+}
+
+impl<'de> Deserialize<'de> for Statement {
+    fn deserialize<D>(deserializer: D) -> Result<Self, D::Error>
+    where
+        D: serde::Deserializer<'de>,
+    {
+        #[derive(Deserialize)]
+        #[serde(field_identifier)]
+        enum Field {
+            Sid,
+            Principal,
+            NotPrincipal,
+            Effect,
+            Action,
+            NotAction,
+            Resource,
+            NotResource,
+            Condition,
+            #[serde(other)]
+            Other,
+        }
+
+        /// Reads the value of a block. Each block appears at most once in a statement.
+        fn read<'de, A, T, U>(map: &mut A, slot: &mut Option<U>, wrap: impl FnOnce(T) -> U, block: &str) -> Result<(), A::Error>
+        where
+            A: serde::de::MapAccess<'de>,
+            T: Deserialize<'de>,
+        {
+            if slot.is_some() {
+                return Err(serde::de::Error::custom(format_args!("more than one {block} block")));
+            }
+            *slot = Some(wrap(map.next_value()?));
+            Ok(())
+        }
+
+        struct Visitor;
+
+        impl<'de> serde::de::Visitor<'de> for Visitor {
+            type Value = Statement;
+
+            fn expecting(&self, formatter: &mut std::fmt::Formatter) -> std::fmt::Result {
+                formatter.write_str("a statement")
+            }
+
+            fn visit_map<A>(self, mut map: A) -> Result<Self::Value, A::Error>
+            where
+                A: serde::de::MapAccess<'de>,
+            {
+                use std::convert::identity;
+
+                let mut sid: Option<Option<Sid>> = None;
+                let mut principal: Option<PrincipalRule> = None;
+                let mut effect: Option<Effect> = None;
+                let mut action: Option<ActionRule> = None;
+                let mut resource: Option<ResourceRule> = None;
+                let mut condition: Option<Option<ConditionRule>> = None;
+
+                while let Some(field) = map.next_key()? {
+                    match field {
+                        Field::Sid => read(&mut map, &mut sid, identity, "sid")?,
+                        Field::Principal => read(&mut map, &mut principal, PrincipalRule::Principal, "principal")?,
+                        Field::NotPrincipal => read(&mut map, &mut principal, PrincipalRule::NotPrincipal, "principal")?,
+                        Field::Effect => read(&mut map, &mut effect, identity, "effect")?,
+                        Field::Action => read(&mut map, &mut action, ActionRule::Action, "action")?,
+                        Field::NotAction => read(&mut map, &mut action, ActionRule::NotAction, "action")?,
+                        Field::Resource => read(&mut map, &mut resource, ResourceRule::Resource, "resource")?,
+                        Field::NotResource => read(&mut map, &mut resource, ResourceRule::NotResource, "resource")?,
+                        Field::Condition => read(&mut map, &mut condition, identity, "condition")?,
+                        Field::Other => {
+                            map.next_value::<serde::de::IgnoredAny>()?;
+                        }
+                    }
+                }
+
+                Ok(Statement {
+                    sid: sid.flatten(),
+                    principal,
+                    effect: effect.ok_or_else(|| serde::de::Error::missing_field("Effect"))?,
+                    action: action.ok_or_else(|| serde::de::Error::missing_field("Action"))?,
+                    resource: resource.ok_or_else(|| serde::de::Error::missing_field("Resource"))?,
+                    condition: condition.flatten(),
+                })
+            }
+        }
+
+        deserializer.deserialize_map(Visitor)
     }
 }
 
@@ -489,6 +577,25 @@ mod tests {
 
             let de: PrincipalRule = serde_json::from_str(str_).unwrap();
             assert_eq!(de, enum_);
+        }
+    }
+
+    #[test]
+    fn statement_blocks() {
+        let rejected = [
+            r#"{"Effect":"Allow","Action":"s3:GetObject","NotAction":"s3:PutObject","Resource":"*"}"#,
+            r#"{"Effect":"Allow","Action":"s3:GetObject","Action":"s3:PutObject","Resource":"*"}"#,
+            r#"{"Effect":"Allow","Action":"*","Resource":"*","NotResource":"arn:aws:s3:::examplebucket/*"}"#,
+            r#"{"Effect":"Allow","Principal":"*","NotPrincipal":"*","Action":"*","Resource":"*"}"#,
+            r#"{"Effect":"Allow","Principal":5,"Action":"*","Resource":"*"}"#,
+            r#"{"Effect":"Allow","Principal":"everyone","Action":"*","Resource":"*"}"#,
+            r#"{"Effect":"Allow","Principal":{"AWS":5},"Action":"*","Resource":"*"}"#,
+            r#"{"Effect":"Allow","Resource":"*"}"#,
+            r#"{"Effect":"Allow","Action":"*"}"#,
+        ];
+
+        for json in rejected {
+            assert!(serde_json::from_str::<Statement>(json).is_err(), "{json}");
         }
     }
 
